@@ -123,6 +123,7 @@ func makeData(name enc.Name, content []byte, fb *enc.Component) ndn.Data {
 }
 
 type fetchCase struct {
+	starved *pubObject
 	o       *out
 	eng     *fakeEngine
 	cli     *object.Client
@@ -230,7 +231,8 @@ func TestFetchTrace(t *testing.T) {
 	o := newOut()
 	defer o.close()
 	for i := 0; i < n; i++ {
-		runFetchCase(o, r, r.Intn(8) == 0)
+		starve := i%6 == 1
+		runFetchCase(o, r, !starve && r.Intn(8) == 0, starve)
 	}
 }
 
@@ -245,18 +247,27 @@ func resultLine(xid int, kind string, d ndn.Data, meta string) string {
 	return fmt.Sprintf("EV result %d data %s %s %s %s", xid, nameStr(d.Name()), hx(d.Content().Join()), fb, meta)
 }
 
-func runFetchCase(o *out, r *rand.Rand, adversarial bool) {
+// starve: two consumers on one client; the first one's object is large enough to fill the shared window and then every one
+// of its remaining segments is lost on every transmission; the second consumer is started while the window is full.
+func runFetchCase(o *out, r *rand.Rand, adversarial bool, starve bool) {
 	fc := &fetchCase{o: o, eng: &fakeEngine{timer: basic.NewTimer()}, objects: map[string]*pubObject{}, r: r}
 	fc.cli = object.NewClient(fc.eng, object.NewMemoryStore())
 	o.pf("FETCH\n")
 	// published objects: small segment payloads (the fetcher never looks at sizes), 1..25 segments
 	nobj := 1 + r.Intn(3)
+	if starve {
+		nobj = 2
+	}
 	var objs []*pubObject
 	for i := 0; i < nobj; i++ {
 		base := append(genName(r), enc.NewVersionComponent(genVersion(r)))
 		nseg := 1 + r.Intn(4)
 		if r.Intn(3) == 0 {
 			nseg = 8 + r.Intn(18)
+		}
+		if starve && i == 0 {
+			nseg = 12 + r.Intn(10)
+			base = append(enc.Name{enc.NewStringComponent(enc.TypeGenericNameComponent, "starved")}, base...)
 		}
 		po := &pubObject{base: base}
 		for s := 0; s < nseg; s++ {
@@ -279,6 +290,11 @@ func runFetchCase(o *out, r *rand.Rand, adversarial bool) {
 	}
 	lossy := r.Intn(3) == 0
 	maxConsumes := 1 + r.Intn(3)
+	if starve {
+		lossy = false
+		maxConsumes = 2
+		fc.starved = objs[0]
+	}
 	consumes := 0
 	steps := 0
 	for steps < 4000 {
@@ -290,7 +306,8 @@ func runFetchCase(o *out, r *rand.Rand, adversarial bool) {
 			arg  int
 		}
 		var evs []ev
-		if consumes < maxConsumes {
+		_, _, outstanding, window := fc.cli.VerifFetcher()
+		if consumes < maxConsumes && (!starve || consumes == 0 || outstanding >= window) {
 			w := 1
 			if consumes == 0 {
 				w = 6
@@ -326,7 +343,12 @@ func runFetchCase(o *out, r *rand.Rand, adversarial bool) {
 		case "consume":
 			po := objs[r.Intn(len(objs))]
 			var nm enc.Name
-			switch r.Intn(6) {
+			pick := r.Intn(6)
+			if starve {
+				po = objs[consumes]
+				pick = 0
+			}
+			switch pick {
 			case 0, 1, 2:
 				nm = po.base // versioned
 			case 3, 4:
@@ -379,6 +401,13 @@ func runFetchCase(o *out, r *rand.Rand, adversarial bool) {
 		}
 		fc.dump()
 	}
+	// the implementation's own view at the end: nothing queued, nothing pending, every consumer started
+	qo, qs, qf, qc := fc.cli.VerifQueues()
+	quiet := 0
+	if qo+qs+qf+qc == 0 && len(fc.eng.pending) == 0 && consumes >= maxConsumes {
+		quiet = 1
+	}
+	o.pf("QUIET %d\n", quiet)
 	o.pf("END\n")
 }
 
@@ -468,6 +497,11 @@ func (fc *fetchCase) deliver(p *pendingX, lossy, adversarial bool) {
 	if last.Typ == enc.TypeSegmentNameComponent && len(name) >= 2 {
 		po := fc.objects[name[:len(name)-1].String()]
 		k := int(last.NumberVal())
+		if po != nil && po == fc.starved && k >= 1 {
+			o.pf("%s\n", resultLine(p.xid, "timeout", nil, ""))
+			p.cb(ndn.ExpressCallbackArgs{Result: ndn.InterestResultTimeout})
+			return
+		}
 		if po != nil && k < len(po.segs) {
 			fb := enc.NewSegmentComponent(uint64(len(po.segs) - 1))
 			fbp := &fb
